@@ -601,3 +601,305 @@ Proof.
   - apply (AllGood_data e); auto.
   - destruct (cleanup_expired (enow e) (ltab e)). apply (AllGood_data e); auto.
 Qed.
+
+(* ---------------------------------------------------------------- rollback: the undo chain of one row *)
+Definition for_row (rid : N) (l : list undo) : list undo := filter (fun u => N.eqb rid (u_rid u)) l.
+
+(* rl = the entries of one row, newest first: each finds the row as its statement left it, and hands the row over
+   to the next older entry in the state that entry's statement had produced *)
+Fixpoint chain (e0 : eng) (rl : list undo) (cur : option (N * N)) : Prop :=
+  match rl with
+  | [] => True
+  | u :: r => PostOK e0 u cur /\ chain e0 r (pre_of u)
+  end.
+
+Lemma PostOK_metas e e0 u cur : hmeta e = hmeta e0 -> bmeta e = bmeta e0 -> PostOK e0 u cur -> PostOK e u cur.
+Proof. intros Hh Hb. unfold PostOK. rewrite Hh, Hb. auto. Qed.
+
+Lemma nth_row_exists rs rid : nth_row rs rid <> None <-> rid <> 0 /\ (N.to_nat rid <= length rs)%nat.
+Proof.
+  unfold nth_row. destruct (N.eqb_spec rid 0) as [->|Hne].
+  - split; [congruence|intros [H _]; congruence].
+  - rewrite nth_error_Some. split; [intros H; split; [exact Hne|lia]|intros [_ H]; lia].
+Qed.
+
+Lemma apply_undo_keeps_slot e u rid : nth_row (rows e) rid <> None -> nth_row (rows (fst (apply_undo true e u))) rid <> None.
+Proof.
+  rewrite !nth_row_exists. destruct (apply_undo_frame true e u) as [_ [_ [_ [Hl _]]]]. now rewrite Hl.
+Qed.
+
+Definition undo_all (us : list undo) (e : eng) : eng :=
+  fst (fold_left (fun ae u => let '(e', er) := apply_undo true (fst ae) u in (e', snd ae || er)) us (e, false)).
+
+Lemma undo_all_cons u us e b :
+  fst (fold_left (fun ae u => let '(e', er) := apply_undo true (fst ae) u in (e', snd ae || er)) (u :: us) (e, b)) =
+  fst (fold_left (fun ae u => let '(e', er) := apply_undo true (fst ae) u in (e', snd ae || er)) us (fst (apply_undo true e u), false)).
+Proof.
+  cbn [fold_left fst snd]. destruct (apply_undo true e u) as [e1 er]. cbn [fst].
+  generalize (b || er) as b1. generalize false as b2. revert e1. induction us as [|u' r IH]; intros e1 b2 b1; [reflexivity|].
+  cbn [fold_left fst snd]. destruct (apply_undo true e1 u') as [e2 er2]. apply IH.
+Qed.
+
+(* undoing a whole log (entries of all rows interleaved, newest first): row rid ends good if its own entries chain *)
+Lemma undo_seq_good e0 rid us : forall e,
+  WFcols e -> hmeta e = hmeta e0 -> bmeta e = bmeta e0 -> GoodRow e rid ->
+  chain e0 (for_row rid us) (live (nth_row (rows e) rid)) ->
+  (for_row rid us <> [] -> nth_row (rows e) rid <> None) ->
+  GoodRow (undo_all us e) rid.
+Proof.
+  induction us as [|u r IH]; intros e WF Hh Hb G Hc Hex; [exact G|].
+  unfold undo_all. rewrite undo_all_cons. fold (undo_all r (fst (apply_undo true e u))).
+  cbn [for_row filter] in Hc, Hex. fold (for_row rid r) in Hc, Hex.
+  destruct (N.eqb_spec rid (u_rid u)) as [E|Hne].
+  - (* an entry of this row *)
+    cbn [chain] in Hc. destruct Hc as [Hp Hc]. subst rid.
+    assert (Hs : nth_row (rows e) (u_rid u) <> None) by (apply Hex; discriminate).
+    destruct (undo_own_good e u WF Hs (PostOK_metas e e0 u _ Hh Hb Hp) G) as [G1 [L1 [M1 M2]]].
+    apply IH; auto.
+    + intros c Hcn. apply WF. now rewrite <- M1, <- M2.
+    + congruence.
+    + congruence.
+    + now rewrite L1.
+    + intros _. now apply apply_undo_keeps_slot.
+  - (* an entry of another row: this row's view is untouched *)
+    destruct (apply_undo_other e u rid) as [R1 [M1 [M2 [T1 T2]]]]; [congruence|].
+    apply IH; auto.
+    + intros c Hcn. apply WF. now rewrite <- M1, <- M2.
+    + congruence.
+    + congruence.
+    + apply (GoodRow_view e); auto. now rewrite R1.
+    + now rewrite R1.
+    + intros H. rewrite R1. auto.
+Qed.
+
+Lemma for_row_rev rid l : for_row rid (List.rev l) = List.rev (for_row rid l).
+Proof.
+  unfold for_row. induction l as [|u r IH]; [reflexivity|]. cbn [List.rev filter]. rewrite filter_app, IH. cbn [filter].
+  destruct (N.eqb rid (u_rid u)); cbn; [reflexivity|now rewrite app_nil_r].
+Qed.
+Lemma for_row_app rid a b : for_row rid (a ++ b) = for_row rid a ++ for_row rid b.
+Proof. apply filter_app. Qed.
+
+Lemma rollback_is_undo_all e tx l :
+  rows (fst (do_rollback true e tx l)) = rows (undo_all (List.rev l) e) /\
+  hent (fst (do_rollback true e tx l)) = hent (undo_all (List.rev l) e) /\
+  bent (fst (do_rollback true e tx l)) = bent (undo_all (List.rev l) e) /\
+  hmeta (fst (do_rollback true e tx l)) = hmeta (undo_all (List.rev l) e) /\
+  bmeta (fst (do_rollback true e tx l)) = bmeta (undo_all (List.rev l) e).
+Proof.
+  unfold do_rollback, undo_all. destruct (fold_left _ (List.rev l) (e, false)) as [e1 err]. cbn. auto.
+Qed.
+
+(* ---------------------------------------------------------------- what one statement records for one row *)
+Lemma for_row_map (g : N * row -> undo) ms rid :
+  NoDup (map fst ms) -> (forall ir, u_rid (g ir) = fst ir) ->
+  (forall r, In (rid, r) ms -> for_row rid (map g ms) = [g (rid, r)]) /\
+  (~ In rid (map fst ms) -> for_row rid (map g ms) = []).
+Proof.
+  intros ND Hg. induction ms as [|[rid0 r0] t IH]; [split; [intros r []|reflexivity]|].
+  cbn in ND. inversion ND as [|? ? Hn ND']; subst. destruct (IH ND') as [I1 I2].
+  cbn [map for_row filter]. rewrite Hg. cbn [fst]. fold (for_row rid (map g t)). split.
+  - intros r [[= <- <-]|Hin].
+    + rewrite N.eqb_refl. now rewrite I2.
+    + destruct (N.eqb_spec rid rid0) as [->|_]; [exfalso; apply Hn; change rid0 with (fst (rid0, r)); now apply in_map|]. now apply I1.
+  - intros Hnin. cbn in Hnin. destruct (N.eqb_spec rid rid0) as [Eq|Nq]; [exfalso; apply Hnin; left; congruence|]. apply I2. intros H. apply Hnin. now right.
+Qed.
+
+Lemma stmt_entry_row lk e tx o l rid : wf_op o -> aget (txs e) tx = Some l ->
+  let e' := fst (stmt lk e tx o) in
+  exists d, aget (txs e') tx = Some (l ++ d) /\ hmeta e' = hmeta e /\ bmeta e' = bmeta e /\
+    ((for_row rid d = [] /\ live (nth_row (rows e') rid) = live (nth_row (rows e) rid) /\
+      (nth_row (rows e) rid <> None -> nth_row (rows e') rid <> None))
+     \/ (exists u, for_row rid d = [u] /\ PostOK e u (live (nth_row (rows e') rid)) /\
+                   pre_of u = live (nth_row (rows e) rid) /\ nth_row (rows e') rid <> None)).
+Proof.
+  intros Hw Hl. cbv zeta.
+  assert (Triv : exists d, aget (txs e) tx = Some (l ++ d) /\ hmeta e = hmeta e /\ bmeta e = bmeta e /\
+             ((for_row rid d = [] /\ live (nth_row (rows e) rid) = live (nth_row (rows e) rid) /\
+               (nth_row (rows e) rid <> None -> nth_row (rows e) rid <> None)) \/
+              (exists u, for_row rid d = [u] /\ PostOK e u (live (nth_row (rows e) rid)) /\
+                         pre_of u = live (nth_row (rows e) rid) /\ nth_row (rows e) rid <> None))).
+  { exists []. rewrite app_nil_r. split; [exact Hl|]. split; [reflexivity|]. split; [reflexivity|]. left. split; [reflexivity|]. split; [reflexivity|auto]. }
+  destruct o; cbn [stmt]; try exact Triv.
+  - (* insert *)
+    unfold do_insert. cbn [fst]. set (rid0 := N.of_nat (length (rows e)) + 1). set (r := R true a b).
+    exists [UIns rid0 (map (fun col => (col, getcol r col)) (hmeta e ++ bmeta e))]. cbn [txs rows hmeta bmeta].
+    split; [rewrite push_undo_get, Hl, N.eqb_refl; reflexivity|]. split; [reflexivity|]. split; [reflexivity|].
+    assert (Gn : nth_row (rows e ++ [r]) rid0 = Some r).
+    { unfold nth_row, rid0. destruct (N.eqb_spec (N.of_nat (length (rows e)) + 1) 0); [lia|].
+      rewrite nth_error_app2 by lia. replace (N.to_nat (N.of_nat (length (rows e)) + 1 - 1) - length (rows e))%nat with 0%nat by lia. reflexivity. }
+    cbn [for_row filter u_rid]. destruct (N.eqb_spec rid rid0) as [->|Hne].
+    + right. eexists. split; [reflexivity|]. rewrite Gn. cbn [live alive r va vb]. split; [|split].
+      * exists a, b. split; reflexivity.
+      * cbn [pre_of]. assert (G0 : nth_row (rows e) rid0 = None) by (unfold nth_row, rid0; destruct (N.eqb_spec (N.of_nat (length (rows e)) + 1) 0); [reflexivity|]; apply nth_error_None; lia).
+        now rewrite G0.
+      * discriminate.
+    + left. rewrite nth_row_app_other by exact Hne. repeat split; auto.
+  - (* update *)
+    cbn in Hw. destruct (do_write_cases e tx c (upd_one tx col v)) as [[o [k [E _]]]|[lt0 [E _]]]; rewrite E; cbn [fst]; [exact Triv|].
+    set (e0 := with_txs e (txs e) lt0).
+    assert (Hc : forall ir, In ir (matching e c) -> Current e0 ir) by (intros ir H; exact (matching_Current e c ir H)).
+    destruct (fold_upd tx col v (matching e c) e0 l (matching_NoDup e c) Hc Hl) as [Ht [Hr Ho]].
+    destruct (fold_frame (upd_one tx col v) (matching e c) (upd_one_Frame tx col v) e0) as [_ [_ [_ [_ [Fh [Fb _]]]]]].
+    exists (map (mk_upd e0 col v) (matching e c)). split; [exact Ht|]. split; [exact Fh|]. split; [exact Fb|].
+    destruct (for_row_map (mk_upd e0 col v) (matching e c) rid (matching_NoDup e c) (fun ir => eq_refl)) as [F1 F2].
+    destruct (in_dec N.eq_dec rid (map fst (matching e c))) as [Hin|Hnin].
+    + apply in_map_iff in Hin. destruct Hin as [[rid' r] [E' Hin]]. cbn in E'. subst rid'.
+      destruct (matching_Current e c _ Hin) as [G A]. cbn [fst snd] in G, A.
+      right. exists (mk_upd e0 col v (rid, r)). split; [now apply F1|]. rewrite (Hr rid r Hin). split; [|split].
+      * cbn [mk_upd PostOK fst snd]. exists col, v. split; [exact Hw|]. rewrite (R_eta r A). split; [|reflexivity].
+        cbn [live]. now rewrite setcol_alive, A.
+      * cbn [mk_upd pre_of fst snd]. rewrite G. cbn. now rewrite A.
+      * discriminate.
+    + left. split; [now apply F2|]. rewrite (Ho rid Hnin). split; [reflexivity|auto].
+  - (* delete *)
+    destruct (do_write_cases e tx c (del_one tx)) as [[o [k [E _]]]|[lt0 [E _]]]; rewrite E; cbn [fst]; [exact Triv|].
+    set (e0 := with_txs e (txs e) lt0).
+    assert (Hc : forall ir, In ir (matching e c) -> Current e0 ir) by (intros ir H; exact (matching_Current e c ir H)).
+    destruct (fold_del tx (matching e c) e0 l (matching_NoDup e c) Hc Hl) as [Ht [Hr Ho]].
+    destruct (fold_frame (del_one tx) (matching e c) (del_one_Frame tx) e0) as [_ [_ [_ [_ [Fh [Fb _]]]]]].
+    exists (map (mk_del e0) (matching e c)). split; [exact Ht|]. split; [exact Fh|]. split; [exact Fb|].
+    destruct (for_row_map (mk_del e0) (matching e c) rid (matching_NoDup e c) (fun ir => eq_refl)) as [F1 F2].
+    destruct (in_dec N.eq_dec rid (map fst (matching e c))) as [Hin|Hnin].
+    + apply in_map_iff in Hin. destruct Hin as [[rid' r] [E' Hin]]. cbn in E'. subst rid'.
+      destruct (matching_Current e c _ Hin) as [G A]. cbn [fst snd] in G, A.
+      right. exists (mk_del e0 (rid, r)). split; [now apply F1|]. rewrite (Hr rid r Hin). split; [|split].
+      * cbn [mk_del PostOK fst snd live alive]. split; reflexivity.
+      * cbn [mk_del pre_of fst snd]. rewrite G. cbn. now rewrite A.
+      * discriminate.
+    + left. split; [now apply F2|]. rewrite (Ho rid Hnin). split; [reflexivity|auto].
+Qed.
+
+(* ---------------------------------------------------------------- histories: rollback keeps the row's index entries *)
+Section HistIdx.
+Variable lk : bool.
+
+(* as Hist (Proofs.v), plus what the index argument needs from the foreign steps: they keep the index metadata
+   (no create_index / create_btree_index while tx has uncommitted changes -- the known class ddl-in-open-tx)
+   and keep every row's index entries good (any real operation other than a rollback does: rstep_AllGood) *)
+Inductive HistI (tx rid : N) : eng -> eng -> Prop :=
+| HI0 e : HistI tx rid e e
+| HIown e o e2 : wf_op o -> HistI tx rid (fst (stmt lk e tx o)) e2 -> HistI tx rid e e2
+| HIother e e1 e2 :
+    aget (txs e1) tx = aget (txs e) tx ->
+    live (nth_row (rows e1) rid) = live (nth_row (rows e) rid) ->
+    (nth_row (rows e) rid <> None -> nth_row (rows e1) rid <> None) ->
+    hmeta e1 = hmeta e -> bmeta e1 = bmeta e -> (AllGood e -> AllGood e1) ->
+    HistI tx rid e1 e2 -> HistI tx rid e e2.
+
+Lemma hist_chain tx rid e0 e : HistI tx rid e0 e -> forall l0, aget (txs e0) tx = Some l0 -> AllGood e0 ->
+  exists d, aget (txs e) tx = Some (l0 ++ d) /\ AllGood e /\ hmeta e = hmeta e0 /\ bmeta e = bmeta e0 /\
+            (forall cur0, live (nth_row (rows e0) rid) = cur0 -> forall tail, chain e0 tail cur0 ->
+               chain e0 (List.rev (for_row rid d) ++ tail) (live (nth_row (rows e) rid))) /\
+            ((for_row rid d <> [] \/ nth_row (rows e0) rid <> None) -> nth_row (rows e) rid <> None).
+Proof.
+  induction 1 as [e|e o e2 Hw H IH|e e1 e2 Ht Hlv Hs Hh Hb Hg H IH]; intros l0 Hl G0.
+  - exists []. split; [now rewrite app_nil_r|]. split; [exact G0|]. split; [reflexivity|]. split; [reflexivity|]. split.
+    + intros cur0 <- tail Hc. exact Hc.
+    + intros [H|H]; [exfalso; apply H; reflexivity|exact H].
+  - destruct (stmt_entry_row lk e tx o l0 rid Hw Hl) as [d1 [Ht1 [Mh [Mb Hcase]]]].
+    pose proof (stmt_AllGood lk e tx o Hw G0) as G1.
+    destruct (IH _ Ht1 G1) as [d2 [Ht2 [G2 [Mh2 [Mb2 [Hc2 Hx2]]]]]].
+    exists (d1 ++ d2). split; [now rewrite app_assoc|]. split; [exact G2|]. split; [congruence|]. split; [congruence|]. split.
+    + intros cur0 Hcur tail Hc. rewrite for_row_app, rev_app_distr, <- app_assoc.
+      destruct Hcase as [[F1 [L1 _]]|[u [F1 [P1 [Pre1 _]]]]]; rewrite F1; cbn [List.rev app].
+      * (* nothing recorded for this row: pass through *)
+        assert (Hc' : chain (fst (stmt lk e tx o)) tail (live (nth_row (rows (fst (stmt lk e tx o))) rid))).
+        { rewrite L1, Hcur. clear -Hc Mh Mb. revert cur0 Hc. induction tail as [|u r IHt]; intros cur0 Hc; [exact I|].
+          cbn [chain] in *. destruct Hc as [P C]. split; [now apply (PostOK_metas _ e)|now apply IHt]. }
+        specialize (Hc2 _ eq_refl tail Hc').
+        clear -Hc2 Mh Mb. revert Hc2. generalize (live (nth_row (rows e2) rid)) as c. generalize (List.rev (for_row rid d2) ++ tail) as rl.
+        induction rl as [|u r IHr]; intros c Hc; [exact I|]. cbn [chain] in *. destruct Hc as [P C].
+        split; [apply (PostOK_metas _ (fst (stmt lk e tx o))); auto|now apply IHr].
+      * (* one entry for this row: it chains onto the older ones *)
+        assert (Hc' : chain (fst (stmt lk e tx o)) (u :: tail) (live (nth_row (rows (fst (stmt lk e tx o))) rid))).
+        { cbn [chain]. split; [apply (PostOK_metas _ e); auto|].
+          rewrite Pre1, Hcur. clear -Hc Mh Mb. revert cur0 Hc. induction tail as [|u' r IHt]; intros cur0 Hc; [exact I|].
+          cbn [chain] in *. destruct Hc as [P C]. split; [now apply (PostOK_metas _ e)|now apply IHt]. }
+        specialize (Hc2 _ eq_refl (u :: tail) Hc').
+        clear -Hc2 Mh Mb. revert Hc2. generalize (live (nth_row (rows e2) rid)) as c. generalize (List.rev (for_row rid d2) ++ u :: tail) as rl.
+        induction rl as [|u' r IHr]; intros c Hc; [exact I|]. cbn [chain] in *. destruct Hc as [P C].
+        split; [apply (PostOK_metas _ (fst (stmt lk e tx o))); auto|now apply IHr].
+    + intros Hor. apply Hx2. rewrite for_row_app in Hor.
+      destruct Hcase as [[F1 [_ S1]]|[u [F1 [_ [_ S1]]]]]; rewrite F1 in Hor; cbn [app] in Hor.
+      * destruct Hor as [Hor|Hor]; [now left|right; now apply S1].
+      * now right.
+  - rewrite <- Ht in Hl. destruct (IH _ Hl (Hg G0)) as [d [Ht2 [G2 [Mh2 [Mb2 [Hc2 Hx2]]]]]].
+    exists d. split; [exact Ht2|]. split; [exact G2|]. split; [congruence|]. split; [congruence|]. split.
+    + intros cur0 Hcur tail Hc.
+      assert (Hc' : chain e1 tail (live (nth_row (rows e1) rid))).
+      { rewrite Hlv, Hcur. clear -Hc Hh Hb. revert cur0 Hc. induction tail as [|u r IHt]; intros cur0 Hc; [exact I|].
+        cbn [chain] in *. destruct Hc as [P C]. split; [now apply (PostOK_metas _ e)|now apply IHt]. }
+      specialize (Hc2 _ eq_refl tail Hc').
+      clear -Hc2 Hh Hb. revert Hc2. generalize (live (nth_row (rows e2) rid)) as c. generalize (List.rev (for_row rid d) ++ tail) as rl.
+      induction rl as [|u r IHr]; intros c Hc; [exact I|]. cbn [chain] in *. destruct Hc as [P C].
+      split; [apply (PostOK_metas _ e1); auto|now apply IHr].
+    + intros [Hor|Hor]; apply Hx2; [now left|right; auto].
+Qed.
+
+(* ROLLBACK AND THE INDEXES, row by row: if tx had just begun at e0 (empty log) and the history to e is as above,
+   then after rolling tx back the index entries of row rid are complete and exact again for the restored row *)
+Theorem rollback_keeps_row_indexes tx rid e0 e : HistI tx rid e0 e -> aget (txs e0) tx = Some [] -> AllGood e0 ->
+  exists l, aget (txs e) tx = Some l /\ GoodRow (fst (do_rollback true e tx l)) rid.
+Proof.
+  intros H Hl G0. destruct (hist_chain tx rid e0 e H [] Hl G0) as [d [Ht [[WF [Nh [Nb G]]] [Mh [Mb [Hc Hx]]]]]]. cbn [app] in Ht.
+  exists d. split; [exact Ht|].
+  destruct (rollback_is_undo_all e tx d) as [R1 [R2 [R3 [R4 R5]]]].
+  assert (Gu : GoodRow (undo_all (List.rev d) e) rid).
+  { apply (undo_seq_good e0 rid (List.rev d) e WF Mh Mb (G rid)).
+    - rewrite for_row_rev. specialize (Hc _ eq_refl [] I). now rewrite app_nil_r in Hc.
+    - intros Hne. apply Hx. left. rewrite for_row_rev in Hne. intros E. apply Hne. now rewrite E. }
+  apply (GoodRow_view (undo_all (List.rev d) e)); auto.
+  - now rewrite R1.
+  - intros c v. now rewrite R2.
+  - intros c v. now rewrite R3.
+Qed.
+End HistIdx.
+
+(* ---------------------------------------------------------------- the whole table after a rollback *)
+Lemma fold_NoDup {A} (f : list ent -> A -> list ent) xs :
+  (forall l x, NoDup l -> NoDup (f l x)) -> forall l, NoDup l -> NoDup (fold_left f xs l).
+Proof. intros Hf. induction xs as [|x r IH]; intros l H; cbn; [exact H|]. apply IH, Hf, H. Qed.
+
+Lemma apply_undo_NoDup e u : NoDup (hent e) -> NoDup (bent e) ->
+  NoDup (hent (fst (apply_undo true e u))) /\ NoDup (bent (fst (apply_undo true e u))).
+Proof.
+  intros Nh Nb. destruct u as [r0 ents|r0 oa ob chg|r0 oa ob ents]; cbn [apply_undo];
+    (destruct (nth_row (rows e) r0) as [cur|]; [destruct (alive cur)|]); cbn [fst hent bent with_idx];
+    split; apply fold_NoDup; auto; intros l x Hl; unfold badd_guarded;
+    repeat match goal with |- context [if ?c then _ else _] => destruct c end;
+    auto using eadd_NoDup, eremove_NoDup.
+Qed.
+
+Lemma undo_all_NoDup us : forall e, NoDup (hent e) -> NoDup (bent e) -> NoDup (hent (undo_all us e)) /\ NoDup (bent (undo_all us e)).
+Proof.
+  induction us as [|u r IH]; intros e Nh Nb; [split; assumption|].
+  unfold undo_all. rewrite undo_all_cons. fold (undo_all r (fst (apply_undo true e u))).
+  destruct (apply_undo_NoDup e u Nh Nb). now apply IH.
+Qed.
+
+Lemma undo_all_metas us : forall e, hmeta (undo_all us e) = hmeta e /\ bmeta (undo_all us e) = bmeta e.
+Proof.
+  induction us as [|u r IH]; intros e; [split; reflexivity|].
+  unfold undo_all. rewrite undo_all_cons. fold (undo_all r (fst (apply_undo true e u))).
+  destruct (IH (fst (apply_undo true e u))) as [A B]. destruct (apply_undo_frame true e u) as [_ [_ [_ [_ [_ [Fh [Fb _]]]]]]].
+  split; congruence.
+Qed.
+
+(* if the history is good for EVERY row, the whole engine is good after the rollback: every query through an index
+   answers exactly like the scan *)
+Theorem rollback_keeps_all_indexes lk tx e0 e : (forall rid, HistI lk tx rid e0 e) -> aget (txs e0) tx = Some [] -> AllGood e0 ->
+  exists l, aget (txs e) tx = Some l /\ AllGood (fst (do_rollback true e tx l)).
+Proof.
+  intros H Hl G0.
+  destruct (hist_chain lk tx 0 e0 e (H 0) [] Hl G0) as [d [Ht [[WF [Nh [Nb G]]] _]]]. cbn [app] in Ht.
+  exists d. split; [exact Ht|].
+  destruct (rollback_is_undo_all e tx d) as [R1 [R2 [R3 [R4 R5]]]].
+  destruct (undo_all_NoDup (List.rev d) e Nh Nb) as [Nh' Nb']. destruct (undo_all_metas (List.rev d) e) as [Mh' Mb'].
+  split; [|split; [|split]].
+  - intros c Hc. apply WF. now rewrite R4, R5, Mh', Mb' in Hc.
+  - now rewrite R2.
+  - now rewrite R3.
+  - intros rid. destruct (rollback_keeps_row_indexes lk tx rid e0 e (H rid) Hl G0) as [d' [Ht' Gr]].
+    rewrite Ht in Ht'. injection Ht' as <-. exact Gr.
+Qed.
